@@ -516,6 +516,16 @@ def m_remove(it, recv, args, e, mod, discard):
         if i is None:
             return none()
         return some(r.items.pop(i)[1])
+    if isinstance(r, I.SetV):
+        # HashSet::remove: true iff the element was present
+        x = it.deref(args[0])
+        for i, (g, y) in enumerate(r.items):
+            if g is not True:
+                raise InternalError("remove from a set with conditional members")
+            if it.truth(it.sym_eq(x, y)):
+                r.items.pop(i)
+                return True
+        return False
     raise InternalError("remove on %s" % type(r).__name__)
 
 
